@@ -104,6 +104,28 @@ class PullBudgetBreached(BaseException):
     'except Exception' in the code under observation swallows it."""
 
 
+def yaql_site(skip=1):
+    """qualified name of the innermost frame that runs yaql code (the consumer)"""
+    f = sys._getframe(skip)
+    while f is not None:
+        fn = f.f_code.co_filename.replace('\\', '/')
+        if '/yaql/' in fn and '/vmon/' not in fn:
+            return '%s.%s' % (fn.rsplit('/', 1)[-1][:-3], f.f_code.co_name)
+        f = f.f_back
+    return 'unknown'
+
+
+def tb_site(exc):
+    site = 'unknown'
+    tb = exc.__traceback__
+    while tb is not None:
+        fn = tb.tb_frame.f_code.co_filename.replace('\\', '/')
+        if '/yaql/' in fn and '/vmon/' not in fn:
+            site = '%s.%s' % (fn.rsplit('/', 1)[-1][:-3], tb.tb_frame.f_code.co_name)
+        tb = tb.tb_next
+    return site
+
+
 class CountingSource:
     """Iterator that numbers every element, counts pulls, optionally endless."""
 
@@ -116,6 +138,8 @@ class CountingSource:
         self.name = name
         self.exhausted = False
         self.iters = 0
+        self.trip = None        # pull number at which the consumer's code site is recorded
+        self.trip_site = None
 
     def __iter__(self):
         self.iters += 1
@@ -125,6 +149,8 @@ class CountingSource:
         if self.pulls >= self.hard_cap:
             raise PullBudgetBreached(self.name)
         self.pulls += 1
+        if self.pulls == self.trip:
+            self.trip_site = yaql_site(2)
         if self.items is None:
             return self.start + (self.pulls - 1) * self.step
         if self.pulls > len(self.items):
